@@ -221,9 +221,15 @@ def run_case(spec):
                 judge_frame(pa, fam, agg=agg, daily=p)
                 keys.add("%s|%s|%s|%s" % (fam, spec.get("split"), "+".join(spec["pattern"]), agg))
         else:
-            data = em.DailyReportingData(df, is_electricity_data=True)
-            p = m.predict(data, ignore_disqualification=True)
-            judge_frame(p, "daily")
+            try:
+                data = em.DailyReportingData(df, is_electricity_data=True)
+            except ValueError:
+                # so few usage days that the data class takes the set for billing data and refuses it: no frame to judge (the data class's business)
+                I.reach("frame.set_rejected_by_the_data_class")
+                data = None
+            if data is not None:
+                p = m.predict(data, ignore_disqualification=True)
+                judge_frame(p, "daily")
         if spec["pattern"]:
             keys.add("%s|%s|%s|none|%s" % (fam, spec.get("split"), "+".join(spec["pattern"]), spec["with_observed"]))
     for w in rec:
